@@ -108,9 +108,19 @@ def replay(case):
     return [{"msg": f"{lab}: {det} :: {dd.brief(case)}", "label": lab} for lab, det in evaluate(case, text, cits)]
 
 
+TEMPLATES = [
+    ["Foo v. Bar, ", "1 U.S. 1", ", 5-6", " (1999)", ". ", "See ", "Bar at 9", ", ", "1 Rob. 1", ". "],
+    ["Smith v. Jones (2001) ", "1 Wash. 2d 3", ", ", "12 Marsh.(Ky.) 345 (1829)", "; ", "Jones at 7", ", ", "1 Marsh. 2", " (1999)"],
+    ["Foo v. Bar, ", "1 Rob. 1", ", ", "2 F.2d 2", " (1850)", ". ", "Id. at 5", "; ", "1 Rob. at 3", " (x)"],
+]
+EDIT_ALPHA = A2[:20] + ["1 Rob. 1", "1 Wash. 2d 3", "Bar at 9", " (1850)", "1 Marsh. 2"]
+
+
 def shards(tier, seed):
     d = DEPTH[tier]
     out = []
+    for ti in range(len(TEMPLATES)):
+        out += dd.residue_shards("fragedit-AC", "fe", "AC", 4 if tier == "quick" else 16, {"t": ti, "edits": 1 if tier == "quick" else 2})
     for tok in ("AC", "HS") if tier == "thorough" else ("AC",):
         out += dd.residue_shards("editions-" + tok, "ed", tok, 32)
     for tok in ("AC", "HS", "REF"):
@@ -137,5 +147,9 @@ def edition_cases(sh):
 
 def run_shard(sh):
     st = Stats()
+    if sh["kind"] == "fe":
+        gen = ("".join(seq) for seq, _ in docspace.edit_mutations(TEMPLATES[sh["t"]], EDIT_ALPHA, sh["edits"]))
+        cases = ({"part": sh["part"], "tok": sh["tok"], "text": t} for t in dd.sliced(gen, sh["r"], sh["n"]))
+        return dd.run_cases(st, sh["part"], cases, evaluate, nontrivial=nontrivial, outcome=outcome)
     cases = dd.seq_cases(sh, ALPHABETS) if sh["kind"] == "seq" else edition_cases(sh)
     return dd.run_cases(st, sh["part"], cases, evaluate, nontrivial=nontrivial, outcome=outcome)
